@@ -100,6 +100,9 @@ func cacheAccesses(p *Prog, f *ssa.Function, field string) []cacheAcc {
 			if node := p.CG.Nodes[g]; node == nil || len(node.In) != 1 {
 				continue
 			}
+			if len(p.lockOps(g)) > 0 {
+				continue // (a helper that takes the lock itself is the place of its accesses: judged on its own)
+			}
 			subst := func(v ssa.Value) ssa.Value {
 				if pa, isP := v.(*ssa.Parameter); isP {
 					args := callArgs(c.Common())
@@ -212,7 +215,7 @@ func checkC20(p *Prog, r *Report) {
 			}
 			// (a helper whose accesses are attributed to its only caller is not itself the place of lookup/fill)
 			attributed := false
-			if acc.Site == nil && f.Parent() == nil && (f.Object() == nil || !f.Object().Exported()) && p.staticOnly(f, nil) {
+			if acc.Site == nil && f.Parent() == nil && (f.Object() == nil || !f.Object().Exported()) && p.staticOnly(f, nil) && len(p.lockOps(f)) == 0 {
 				if node := p.CG.Nodes[f]; node != nil && len(node.In) == 1 {
 					attributed = true
 				}
